@@ -116,8 +116,8 @@ namespace sqf::parser::config
             { // input ended inside the keyword: only a prefix matched
                 return 0;
             }
-            if (it < m_end && ((char)std::tolower(*it) >= 'a' && (char)std::tolower(*it) <= 'z'))
-            {
+            if (it < m_end && (((char)std::tolower(*it) >= 'a' && (char)std::tolower(*it) <= 'z') || (*it >= '0' && *it <= '9') || *it == '_'))
+            { // the word goes on: an identifier that merely starts like the keyword (class_x, delete1)
                 return 0;
             }
             return it - start;
